@@ -671,7 +671,6 @@ static void getConfigs(const simplecpp::TokenList &tokens, std::set<std::string>
                     } else {
                         // The instance in ret is more general than the one in config (have =value), keep the one in ret
                         config.clear();
-                        continue;
                     }
                 }
             }
